@@ -156,8 +156,9 @@ def rule_b(ctx):
     ctx.ob("action-next-forwards", ok, "Action::next maps the result of the inner next()", inner + maps)
     for cb in P.children(a):
         rets = [r for r in K.ret_assigns(cb) if not r.is_term and r.node["r"]["r"] == "agg"]
-        good = False
+        good = bool(rets)
         for r in rets:
+            this = False
             ops = r.node["r"]["ops"]
             if len(ops) == 2 and cb.origins(ops[1], r) == frozenset([("proj", ("arg", 2), ("f", "1"))]):
                 ao = cb.origins(ops[0], r)
@@ -165,7 +166,8 @@ def rule_b(ctx):
                     if x[0] == "agg" and x[3] == "simulation::scheduler::Action":
                         s = Site(cb, x[1], x[2])
                         if cb.origins(s.node["r"]["ops"][0], s) == frozenset([("proj", ("arg", 2), ("f", "0"))]):
-                            good = True
+                            this = True
+            good = good and this
         ctx.ob("action-next-closure", good, "the mapping closure wraps component 0 and passes the period (component 1) unchanged", rets)
 
 
